@@ -96,4 +96,16 @@ Definition trim_right (set s : bytes) : bytes := rev (trim_left set (rev s)).
 (* bytealg.Trim / bytes.Trim with a cut set *)
 Definition trim (set s : bytes) : bytes := trim_right set (trim_left set s).
 
+(* parser.go unquote: strip the one pair of equal quote characters that
+   encloses the text; anything else is trimmed as before *)
+Definition unquote_with (set s : bytes) : bytes :=
+  match s with
+  | q :: r =>
+      match rev r with
+      | l :: m => if N.eqb q l && existsb (N.eqb q) set then rev m else trim set s
+      | [] => trim set s
+      end
+  | [] => []
+  end.
+
 Definition ch (a : ascii) : N := N_of_ascii a.
